@@ -58,9 +58,10 @@ def gen(ctx):
             for doc in ctx.rng.sample(docs, 3):
                 cases.append({"kind": "query", "ast": ast, "text": text, "doc": doc, "style": style})
     # strings and scalars reached by every selector kind (wrong-kind targets)
-    wrong = {"s": "abc", "n": 5, "t": True, "z": None, "f": 1.5, "o": {"0": "zero", "1": "one", "-1": "neg"}, "l": ["x", "y", "z"]}
+    wrong = {"s": "abc", "n": 5, "t": True, "z": None, "f": 1.5, "o": {"0": "zero", "1": "one", "-1": "neg"}, "l": ["x", "y", "z"],
+             "on": {"0": None, "1": None, "-1": None, "a": None}, "ln": [None, None]}        # null is a value: members and elements that hold it are selected
     for key in wrong:
-        for sel in ["[0]", "[-1]", "[0:2]", "[::-1]", "[*]", ".*", "['a']", ".a", "..a", "..[0]", "..*", "[0, 'a', *]", "[1:]", "['0']"]:
+        for sel in ["[0]", "[-1]", "[0:2]", "[::-1]", "[*]", ".*", "['a']", ".a", "..a", "..[0]", "..*", "[0, 'a', *]", "[1:]", "['0']", "[0, '0', 0]", "[-1, 1]"]:
             text = f"$.{key}{sel}"
             cases.append({"kind": "text", "text": text, "doc": wrong})
     # indices and slice bounds exactly at the interoperability limits +-(2**53 - 1) are valid RFC 9535 integers
